@@ -46,9 +46,11 @@ PROPS = {
                      "centres lie within 0.05 of the atomic sites; k-points with near-degenerate split bands are skipped (named in the evidence). Hybrids must be "
                      "permuted by every operation (SymOrbits!ShellAllowed; on the hexagonal cell only s, p, d, pz are used). Quick: 10 replayed "
                      "structures (tetragonal, hexagonal, one cubic C3v, 2 magnetic), about 14 symmetrize runs, 8 recorded structures; thorough: the whole "
-                     "catalogue. FINDING (key System_R.symmetrize:mixed_centres): shells given in the d basis "
-                     "(d, eg) on a polar site whose group mixes dz2 and dx2-y2 (e.g. C3v along [111]) are not symmetrised exactly: centres are "
-                     "treated per orbital, the internal Berry curvature is not covariant and a second symmetrisation moves the centres; every "
+                     "catalogue. FINDING (key System_R.symmetrize:mixed_centres): shells whose orbitals are mixed (not merely permuted up to sign) "
+                     "by an operation of the site group of a polar site are not symmetrised exactly: centres are treated per orbital, the "
+                     "Berry curvature is not covariant and a second symmetrisation moves the centres. Instances: d / eg on a site whose "
+                     "group mixes dz2 and dx2-y2 (C3v along [111] of a cubic cell); p / d on a polar site of the hexagonal cell whose site "
+                     "group has an operation with a non-diagonal Cartesian matrix (class SymOrbits!MixedCentreSitesFor). Every "
                      "curvature/centre/idempotence failure of that input class is filed under this key; "
                      "reproduction: python -m harness.props._c20_repro.",
                 ref="DESIGN.md 3.7"),
@@ -56,6 +58,7 @@ PROPS = {
 
 PROJ_SETS = [["s"], ["p"], ["s", "p"], ["sp3"], ["d"], ["t2g"], ["eg"], ["sp3d2"], ["pz"], ["sp2"], ["sp"], ["p2"], ["pxy"], ["s", "d"], ["sp2", "pz"]]
 MATS = ("Ham", "AA", "SS")
+MIXED_SHELLS = {"orthogonal": ("d", "eg"), "hex": ("p", "d")}      # SymOrbits!MixesShell
 INFO_CLAUSES = ("group_size", "class_recorded", "structure_ok", "shells_allowed", "group_complete")     # harness / irrep vs spec, not the code
 
 
@@ -397,10 +400,10 @@ def symmetrize_run(rep, st, shells, soc, nprs, counts):
     counts["runs"] += 1
     counts["soc"] += int(soc)
     counts["magnetic"] += int(magnetic)
-    counts["hexagonal"] += int(st["lat"] == "hex")
-    mixed_class = bool(st["mixed"]) and any(sh in ("d", "eg") for sh in shells)
+    mixed_class = bool(st["mixed"]) and any(sh in MIXED_SHELLS["hex" if st["lat"] == "hex" else "orthogonal"] for sh in shells)
     res["mixed_class"] = mixed_class
     res["nops"] = len(pops)
+    counts["hexagonal"] += int(st["lat"] == "hex" and not mixed_class)
     for nm in ("energy", "berry", "spin", "herm", "centres", "idem"):
         if res[nm] > (TOL_BERRY if nm == "berry" else TOL):
             keyname = "mixed_centres" if (mixed_class and nm in ("berry", "centres", "idem")) else nm
@@ -582,11 +585,15 @@ def _check(rep, tier):
     recs = []
     maxres = {}
     plan = []
-    pool = structs if thorough else rng.sample(ostructs, min(len(ostructs), 6)) + rng.sample(hstructs, min(len(hstructs), 3))
+    pool = structs if thorough else rng.sample(ostructs, min(len(ostructs), 6)) + rng.sample(hstructs, min(len(hstructs), 2))
     for n, st in enumerate(pool):
         ok = [ps for ps in PROJ_SETS if all(sh in st["shells"] for sh in ps)]
         for ps in (rng.sample(ok, min(len(ok), 3 if thorough else 1))):
             plan.append((st, ps, (n + len(ps)) % 2 == 1))
+    hplain = [s for s in hstructs if not s["mixed"]]
+    if hplain:
+        plan.append((hplain[0], ["p"], False))
+        plan.append((hplain[-1], ["s", "p"], True))
     for st in cstructs[:2 if thorough else 1]:
         for ps in (["d"], ["t2g"], ["eg"], ["sp3"], ["s", "p"]) if thorough else (["eg"], ["t2g"]):
             if all(sh in st["shells"] for sh in ps):
